@@ -193,7 +193,7 @@ def canonical_embed(prog, r, args):
             return ("p%d" % expr[1], [])
         h = "k%d_%s" % (i, slot)
         names1.append(h)
-        res1[h] = kvalue.Const(expr[1], expr[2]) if expr[0] == "const" else (None if expr[0] == "nonec" else (expr[1] if expr[0] == "strc" else bool(expr[1])))
+        res1[h] = kvalue.Const(expr[1], expr[2]) if expr[0] == "const" else (None if expr[0] == "nonec" else (expr[1] if expr[0] == "strc" else (kvalue.PYC[expr[1]] if expr[0] == "pyc" else bool(expr[1]))))
         if impl_uxn is not None:
             rho[h] = impl_uxn.id
         return (h, [])
